@@ -15,6 +15,7 @@ MODS = {
     "builder": ("parser/src/grammar_builder.rs", "builder_h.rs", "grammar_builder::verif_kani::"),
     "parser": ("parser/src/earley/parser.rs", "parser_h.rs", "earley::parser::verif_kani::"),
     "lexerspec": ("parser/src/earley/lexerspec.rs", "lexerspec_h.rs", "earley::lexerspec::verif_kani::"),
+    "tokenparser": ("parser/src/tokenparser.rs", "tokenparser_h.rs", "tokenparser::verif_kani::"),
 }
 
 HARNESSES = {
@@ -30,6 +31,8 @@ HARNESSES = {
     "parser": dict(c20=["c20_item_packing"], c13=["k13_3_forced_byte_probe"], c13_fail=["k13_3_witness_must_fail"],
                    c19=["k19_4_bias_post_s0_n0", "k19_4_bias_post_s0_n1", "k19_4_bias_post_s0_n2", "k19_4_bias_post_s1_n1"], c19_fail=["k19_4_witness_must_fail"]),
     "lexerspec": dict(c19=["k19_2_contains_token"]),
+    "tokenparser": dict(c13=["k13_4_prompt_p2_g2_c0", "k13_4_prompt_p2_g2_c1", "k13_4_prompt_p2_g2_c2", "k13_4_prompt_p2_g2_c3", "k13_4_prompt_p2_g2_c4", "k13_4_prompt_p0_g2_c1",
+                             "k13_4_prompt_p2_g0_c1", "k13_4_prompt_p3_g1_c2", "k13_4_prompt_p1_g3_c2", "k13_4_prompt_p0_g0_c0"], c13_fail=["k13_4_witness_must_fail"]),
 }
 
 
@@ -188,6 +191,62 @@ def slice_bias_post():
     return "{\n" + txt + "\n}\n"
 
 
+def _strip_macro_calls(text, name):
+    """removes `name!( … );` statements (balanced parentheses, string literals respected)"""
+    out = ""
+    i = 0
+    pat = name + "!("
+    while True:
+        k = text.find(pat, i)
+        if k < 0:
+            return out + text[i:]
+        out += text[i:k]
+        j = k + len(pat)
+        depth = 1
+        in_str = False
+        while j < len(text) and depth > 0:
+            ch = text[j]
+            if in_str:
+                if ch == "\\":
+                    j += 1
+                elif ch == '"':
+                    in_str = False
+            elif ch == '"':
+                in_str = True
+            elif ch == "(":
+                depth += 1
+            elif ch == ")":
+                depth -= 1
+            j += 1
+        while j < len(text) and text[j] in " \n":
+            j += 1
+        if j < len(text) and text[j] == ";":
+            j += 1
+        i = j
+
+
+def slice_process_prompt():
+    """statements of TokenParser::process_prompt from the tokenisation of prompt+grammar bytes to the end of the chop_bytes if/else"""
+    src = open(os.path.join(REPO, "parser/src/tokenparser.rs")).read().splitlines()
+    fn = [i for i, l in enumerate(src) if l.startswith("    pub fn process_prompt(&mut self, prompt: Vec<TokenId>) -> Vec<TokenId> {")]
+    if len(fn) != 1:
+        raise SliceError("anchor `pub fn process_prompt(&mut self, prompt: Vec<TokenId>) -> Vec<TokenId> {` not found exactly once in tokenparser.rs")
+    body = _block_after(src, fn[0])
+    st = [i for i, l in enumerate(body) if l.strip() == "let (tokens, num_fixed) = self.token_env.tokenize_bytes_marker(&prompt_bytes);"]
+    if len(st) != 1:
+        raise SliceError("process_prompt no longer has `let (tokens, num_fixed) = self.token_env.tokenize_bytes_marker(&prompt_bytes);`")
+    part = body[st[0]:]
+    while part and not part[-1].strip():
+        part.pop()
+    if not part or part[-1].strip() != "res_prompt":
+        raise SliceError("process_prompt no longer ends with the expression `res_prompt`")
+    txt = _strip_macro_calls("\n".join(part), "infoln")
+    for need in ("tokenize_and_chop", "if chop_bytes <= grm_bytes.len()", "apply_forced", "self.grm_prefix = prompt_bytes"):
+        if need not in txt:
+            raise SliceError("process_prompt tail no longer contains `%s`" % need)
+    return "{\n" + txt + "\n}\n"
+
+
 def prepare(tag, mods):
     """returns overlay with the requested harness modules injected. raises SliceError / FileNotFoundError (-> inconclusive)"""
     ov = e1.Overlay(tag)
@@ -201,6 +260,8 @@ def prepare(tag, mods):
         if "parser" in mods:
             ov.write("parser/src/earley/verif_forced_byte_slice.rs", slice_forced_byte())
             ov.write("parser/src/earley/verif_bias_post_slice.rs", slice_bias_post())
+        if "tokenparser" in mods:
+            ov.write("parser/src/verif_process_prompt_slice.rs", slice_process_prompt())
         if "builder" in mods:
             ov.write("parser/src/verif_negated_slice.rs", slice_negated())
     except Exception:
